@@ -315,8 +315,8 @@ Definition enc_shape (T : tables) (pty : ty) (v : value) : Prop :=
 Definition wshp (T : tables) (pty : ty) (v : value) : Prop := wsh pty v \/ enc_shape T pty v.
 
 (** the shape of the objects the message decoders return *)
-Definition cmd_shape (T : tables) (v : value) : Prop :=
-  exists tagn tagz szn szz ccn cc hty hx pty pv,
+Definition cmd_shape_cc (T : tables) (cc : Z) (v : value) : Prop :=
+  exists tagn tagz szn szz ccn hty hx pty pv,
     lookupZ cc (cmd_handles T) = Some hty /\ lookupZ cc (cmd_params T) = Some pty /\ wsh hty hx /\ wshp T pty pv /\
     (v = VStruct_ (TyN "Command") [("tag", Some (VInt_ tagn tagz)); ("commandSize", Some (VInt_ szn szz)); ("commandCode", Some (VInt_ ccn cc));
                                     ("handles", Some hx); ("parameters", Some pv)] \/
@@ -324,6 +324,7 @@ Definition cmd_shape (T : tables) (v : value) : Prop :=
        v = VStruct_ (TyN "Command") [("tag", Some (VInt_ tagn tagz)); ("commandSize", Some (VInt_ szn szz)); ("commandCode", Some (VInt_ ccn cc));
                                       ("handles", Some hx); ("authSize", Some (VInt_ asn asz)); ("authorizationArea", Some (VList_ l));
                                       ("parameters", Some pv)]).
+Definition cmd_shape (T : tables) (v : value) : Prop := exists cc, cmd_shape_cc T cc v.
 Definition rsp_shape (T : tables) (cc : option Z) (v : value) : Prop :=
   exists tagn tagz szn szz rcn rc,
     v = VStruct_ (TyN "Response") [("tag", Some (VInt_ tagn tagz)); ("responseSize", Some (VInt_ szn szz)); ("responseCode", Some (VInt_ rcn rc))] \/
@@ -436,17 +437,18 @@ Section MsgObj.
   Lemma cmd_params_obj pa cid aid cc vl area enc s tr s' res :
     cmd_params_step T true pa cid aid cc vl area enc s = (tr, s', Ok res) ->
     exists pty pv, lookupZ cc (cmd_params T) = Some pty /\ cr_obj res = cmd_obj (("parameters", Some pv) :: vl) /\ wshp T pty pv /\
-                   evs_of tr = oe_ty T pty pv (pchild pa "parameters").
+                   evs_of tr = oe_ty T pty pv (pchild pa "parameters") /\ cr_cc res = Some cc.
   Proof.
     intros E. unfold cmd_params_step in E. destruct (lookupZ cc (cmd_params T)) as [pty|] eqn:Lp; [|discriminate].
     rewrite try_field_strict in E. binv E tr1 s1 pv X1.
     destruct (params_obj pty enc (area_named cc pty ltac:(right; left; exact Lp)) _ _ _ _ _ X1) as (v & -> & Wv & Hv).
     binv E tr2 s2 u2 X2. pose proof (quiet_assert_done _ _ _ _ _ X2) as ->. injection E as <- _ <-.
-    exists pty, v. split; [reflexivity|]. split; [reflexivity|]. split; [exact Wv|]. rewrite !app_nil_r. exact Hv.
+    exists pty, v. split; [reflexivity|]. split; [reflexivity|]. split; [exact Wv|]. split; [rewrite !app_nil_r; exact Hv|reflexivity].
   Qed.
 
   (** C11 for commands *)
-  Theorem command_obj pa s tr s' res : dec_command T true pa s = (tr, s', Ok res) -> evs_of tr = oe_command T (cr_obj res) pa /\ cmd_shape T (cr_obj res).
+  Theorem command_obj_cc pa s tr s' res : dec_command T true pa s = (tr, s', Ok res) ->
+    evs_of tr = oe_command T (cr_obj res) pa /\ exists cc, cr_cc res = Some cc /\ cmd_shape_cc T cc (cr_obj res).
   Proof.
     intros E. unfold dec_command in E.
     binv E tr1 s1 cid X1. injection X1 as <- _ _. binv E tr2 s2 aid X2. injection X2 as <- _ _.
@@ -466,19 +468,22 @@ Section MsgObj.
       destruct (sized_obj (oe_ty T (t_auth_cmd T)) (wsh (t_auth_cmd T)) (fun p => dec_ty T true (t_auth_cmd T) p None false) _ _ _ _ _ _ _
                   (proj1 (obj_all T) _ auth_named_cmd None) X13) as (l & -> & W13 & H13).
       cbv zeta in E. destruct (is_param_enc _ _ _) as [enc|]; [|discriminate].
-      destruct (cmd_params_obj _ _ _ _ _ _ _ _ _ _ _ E) as (pty & pv & Lp & -> & Wp & Hp). split.
+      destruct (cmd_params_obj _ _ _ _ _ _ _ _ _ _ _ E) as (pty & pv & Lp & -> & Wp & Hp & Hcc). split.
       + unfold sev. cbn [app evs_of]. rewrite !evs_app, H5, H6, H8, H9, H10, H13, Hp. cbn [evs_of app].
         unfold oe_command, cmd_obj, oe_req, oe_opt. cbn [rev app lookupS String.eqb Ascii.eqb Bool.eqb as_int oe_leaf]. rewrite Lh, Lp.
         rewrite ?app_nil_r, <- ?app_assoc. reflexivity.
-      + unfold cmd_shape, cmd_obj. cbn [rev app]. do 10 eexists. split; [exact Lh|]. split; [exact Lp|]. split; [exact W9|]. split; [exact Wp|].
+      + exists cc. split; [exact Hcc|]. unfold cmd_shape_cc, cmd_obj. cbn [rev app]. do 9 eexists. split; [exact Lh|]. split; [exact Lp|]. split; [exact W9|]. split; [exact Wp|].
         right. do 3 eexists. split; [exact W13|reflexivity].
-    - destruct (cmd_params_obj _ _ _ _ _ _ _ _ _ _ _ E) as (pty & pv & Lp & -> & Wp & Hp). split.
+    - destruct (cmd_params_obj _ _ _ _ _ _ _ _ _ _ _ E) as (pty & pv & Lp & -> & Wp & Hp & Hcc). split.
       + unfold sev. cbn [app evs_of]. rewrite !evs_app, H5, H6, H8, H9, Hp. cbn [evs_of app].
         unfold oe_command, cmd_obj, oe_req, oe_opt. cbn [rev app lookupS String.eqb Ascii.eqb Bool.eqb as_int oe_leaf]. rewrite Lh, Lp.
         rewrite ?app_nil_r, <- ?app_assoc. reflexivity.
-      + unfold cmd_shape, cmd_obj. cbn [rev app]. do 10 eexists. split; [exact Lh|]. split; [exact Lp|]. split; [exact W9|]. split; [exact Wp|].
+      + exists cc. split; [exact Hcc|]. unfold cmd_shape_cc, cmd_obj. cbn [rev app]. do 9 eexists. split; [exact Lh|]. split; [exact Lp|]. split; [exact W9|]. split; [exact Wp|].
         left. reflexivity.
   Qed.
+
+  Theorem command_obj pa s tr s' res : dec_command T true pa s = (tr, s', Ok res) -> evs_of tr = oe_command T (cr_obj res) pa /\ cmd_shape T (cr_obj res).
+  Proof. intros E. destruct (command_obj_cc pa s tr s' res E) as (H1 & cc & _ & H2). split; [exact H1|exists cc; exact H2]. Qed.
 
   Lemma rsp_finish_quiet rid v s tr s' a : rsp_finish true rid v s = (tr, s', Ok a) -> tr = [] /\ a = rsp_obj v.
   Proof.
